@@ -332,6 +332,8 @@ class Sim:
     def gen_op(self, rng, cfg, sess):
         op = self._gen_op(rng, cfg, sess)
         w = sess.world
+        if cfg.get("alias", True) and rng.random() < 0.3 and "as_array" not in op and op["op"] != "reset_path":
+            op["as_array"] = True
         if cfg.get("alias", True) and rng.random() < 0.12 and op["op"] in ("set_position", "rotate", "move"):
             # an input that is a live view of another member's path (same tree => same path length)
             o = op["o"] % len(w.objs)
